@@ -190,6 +190,15 @@ func TestCheck(t *testing.T) {
 		for k := range res.Blocks {
 			blocks[k] = true
 		}
+		if (i/workers)%50 == 7 && !simrt.RaceBuild {
+			// determinism spot check: the same seed again, in this process, must give the same
+			// event log digest (the cross-process test is `./check selftest`)
+			_, again := runOne(t, spec, seed, tier)
+			out.Stats["determinism_rechecks"]++
+			if again.Digest != res.Digest {
+				out.Failures = append(out.Failures, fmt.Sprintf("seed %d: two executions gave different event logs (%s / %s): harness nondeterminism", seed, res.Digest[:12], again.Digest[:12]))
+			}
+		}
 		if res.Failure != "" {
 			out.Failures = append(out.Failures, fmt.Sprintf("seed %d: %s", seed, res.Failure))
 			if len(out.Failures) > 5 {
